@@ -108,7 +108,7 @@ CHECKS = {
             "engine": "tensor-history",
             "design_ref": "DESIGN.md section 3, engine A",
             "level_text": "Seeded search over histories: each run drives a dense tensor and a sparse tensor in lock-step through 4-30 reads/writes in every documented key form (growth, order growth, zero writes, mixed batches, unsorted sparse storage, malformed requests as faults) and compares the full state of both with a dict-of-cells reference model after every step. A clean batch is evidence over the sampled histories, not a proof; violations are ddmin-minimised and replayed in fresh interpreters before being reported.",
-            "level_note": "Trusted: the reference model (sim/engine_a.py Model), numpy. Narrowings: no duplicate positions in one batch, no length-1 index lists, float64 values, no slice steps, negative slice bounds only in reads. Two recorded known findings (dense multi-index-list regions) are driven through the subscript-array form on the dense side.",
+            "level_note": "Trusted: the reference model (sim/engine_a.py Model), numpy. Narrowings: no duplicate positions in one batch, no length-1 index lists, float64 or int64 values, slice strides only where nothing grows, negative slice bounds only in reads. 6% of the runs use tensors of several hundred elements with requests naming 200-1200 positions; 3% are sparse-only histories on modes of 2**24..2**40 (no dense twin; key forms for which the library materialises the extent of a mode are left out there). Two recorded known findings (dense multi-index-list regions) are driven through the subscript-array form on the dense side.",
             "technique": "deterministic simulation: seeded history search against an executable reference model (refinement), ddmin + JSON replay",
         },
         "level": "exploration",
@@ -128,7 +128,7 @@ CHECKS = {
             "simulated": ["none needed: the history itself is the schedule; warnings are captured"],
         },
         "assumptions": [
-            "narrowings listed in DESIGN.md section 3 (engine A): no duplicate positions within one batch, no length-1 index lists, float values only, no slice steps",
+            "narrowings listed in DESIGN.md section 3 (engine A): no duplicate positions within one batch, no length-1 index lists, slice strides only in non-growing requests",
             "sampling, not enumeration",
         ],
     },
@@ -228,7 +228,7 @@ CHECKS = {
         "thorough": {"runs": 250000, "wall": 1200},
         "chunk": 25,
         "rule": (
-            "one case = one history of 4-16 export/import/foreign-write steps over 3 paths under one buffering configuration "
+            "one case = one history of 4-16 export/import/foreign-write steps (imports by keyword or positional index base; 40% of the imported objects edited in place afterwards) over 3 paths under one buffering configuration "
             "(40% of the runs with OSError injection at a call position); non-trivial = at least 2 round trips compared "
             "bit for bit; distinct = distinct digest of (configuration, steps, observations)."
         ),
@@ -252,7 +252,7 @@ CHECKS = {
         "thorough": {"runs": 300000, "wall": 1200},
         "chunk": 25,
         "rule": (
-            "one case = one run of 6-20 generator calls, each under its own derived seed for the global numpy stream; "
+            "one case = one run of 6-20 generator calls (40% of them repeated once or twice, 30% of the results edited in place afterwards), each under its own derived seed for the global numpy stream; "
             "non-trivial = at least 3 calls checked; distinct = distinct digest of (steps, observations)."
         ),
         "state_measure": "hash of (generator, order, reducer, value function, density-or-count)",
